@@ -11,6 +11,7 @@ missing in the parsed text (M1) and the re-read attribute differs from D (M3).
 import json
 import os
 
+from rv import formats
 from rv import fmt_composeinfo as F
 from rv.model import domains
 
@@ -173,6 +174,9 @@ def run_shard(ctx):
             break
         force = CLASSES[(i // 2) % len(CLASSES)] if i % 2 == 0 else None
         D = F.gen_description(rng, force)
+        if force is None and rng.random() < 0.1:
+            formats.equalise("composeinfo", D, rng)
+            ctx.count("fields-made-equal")
         order_seed = rng.randrange(1 << 30)
         written = check_case(ctx, pm, D, order_seed, tmpdir)
         if written:
